@@ -233,7 +233,7 @@ def write_evidence(ctx, level, n_viol, status):
     theorems = ctx.theorems
     table_obl = ctx.extra.get("table_obligations", 0)
     obligations = len(theorems) + table_obl + 1
-    broken = len({b["what"] for b in ctx.obligation_breaks}) + (1 if ctx.tie_breaks or ctx.violations else 0)
+    broken = len({b["what"] for b in ctx.obligation_breaks}) + (1 if ctx.tie_breaks or n_viol else 0)
     discharged = max(0, obligations - broken)
     cov = {
         "obligations": obligations,
